@@ -4,6 +4,15 @@
     of XmlX.norm). *)
 From SpyneV Require Export C01.Call.
 
+(** header classes with pairwise distinct qualified names (Soap11.deserialize matches header
+    entries to the declared classes through a dict keyed by '{namespace}name') *)
+Fixpoint hdr_distinct (U : universe) (cs : list cid) : bool :=
+  match cs with
+  | [] => true
+  | c :: r => forallb (fun d => negb (text_eqb (cls_ns U c) (cls_ns U d) && text_eqb (cls_name U c) (cls_name U d))) r
+              && hdr_distinct U r
+  end.
+
 Section Spec.
   Variable L : leaf_codec.
   Variable P : proto.
